@@ -2119,7 +2119,7 @@ func ruleRedisOptionsUnconditional(c *Ctx) {
 						if _, tracked := want[fv.Name()]; tracked {
 							want[fv.Name()] = true
 						}
-						if !(st.Block() == b || st.Block().Dominates(b)) {
+						if (fv.Name() == "DB" || fv.Name() == "Addrs") && !(st.Block() == b || st.Block().Dominates(b)) {
 							bad = append(bad, fmt.Sprintf("%s: redis option %s is set on some paths only: a store URL that names it is honoured or ignored depending on its other parameters (two deployments kept apart by ?db= on one sentinel-managed redis then share records)", c.P.pos(st.Pos()), fv.Name()))
 						}
 					}
